@@ -25,7 +25,9 @@ META = dict(
 )
 META['level_text'] = (
     'Theorems over Model/Typing.v for every spec built from Bool/Int/Float/Str/Enum/List/Tuple/Dict/Object/Union/Any with any ranges, sizes, flags and nesting: '
-    'see design/C04.md for the list (apply idempotent, default acceptable, compatibility sound, extension narrows; partial ones are named _partial). '
+    'apply idempotent and default acceptable (every class incl. Union under the decidable union_plain proviso), compatibility sound for the code as it is under a syntactic avoids hypothesis '
+    '(Union receivers under the decidable union_safe proviso), extension narrows / base compatible (children incl. frozen and Enum ones; no Union / Dict schema), schema shared-field corollary; '
+    'refutation witnesses for every dropped hypothesis; see design/C04.md for the exact statements (partial ones are named _partial). '
     'Tie: the model is run against ValueSpec.apply / is_compatible / extend of the working tree on every generated case; '
     'a direct oracle re-checks the containments with the real library on boundary and random values.')
 META['level_note'] = (
@@ -1296,12 +1298,23 @@ def run(ctx):
     if key in seen_h: continue
     seen_h.add(key)
     cases.append([flags, 3, t]); impl_outs.append([1, 1, 1, 1]); descr.append(dict(op='hypotheses', spec=t, spec_text=show(t)))
+    # which theorem fragments the spec lies in: answered by the model alone (no implementation side), reported as coverage
+    cases.append([flags, 4, t]); impl_outs.append('FRAGMENTS'); descr.append(dict(op='fragments', spec=t))
     nh += 1
   ctx.traces_validated = nh
   ctx.extra['theorem_hypotheses_checked_on_specs'] = nh
 
   # ---- model ----------------------------------------------------------------------------------------
   model_outs = ctx.model_run(cases)
+  frag_names = ['no_union', 'union_plain (idempotence theorem)', 'union_safe (compat theorem, receiver)', 'no_schema', 'no_frozen', 'avoids (current code)']
+  for i, o in enumerate(impl_outs):
+    if o == 'FRAGMENTS':
+      mo = model_outs[i]
+      impl_outs[i] = mo
+      if isinstance(mo, list) and len(mo) == len(frag_names):
+        for nme, bit in zip(frag_names, mo): ctx.hist('theorem_fragment_coverage', '%s=%s' % (nme, bool(bit)))
+        if cases[i][2][0] == 9 or '(9 ' in trlib.to_line(cases[i][2]):
+          ctx.hist('union_specs', 'union_plain=%s union_safe=%s' % (bool(mo[1]), bool(mo[2])))
   lookup = {id(c): d for c, d in zip(cases, descr)}
   bad = ctx.compare('Typing.run vs ValueSpec.apply / is_compatible / extend', cases, impl_outs, model_outs, describe=lambda c: lookup.get(id(c)))
   ctx.extra['disagreeing_ops'] = sorted({descr[i]['op'] for i in bad})[:5]
